@@ -832,6 +832,11 @@ impl DirectAddrUpdateState {
                     }
                 }
 
+                // Release the net-report client before signalling: the receiver reacts with
+                // `try_run`, which silently does nothing while the client is still locked and
+                // would leave a pending update request queued with nothing to trigger it.
+                drop(net_reporter);
+
                 // mark run as finished
                 debug!("direct addr update done ({:?})", why);
                 run_done.send(()).await.ok();
